@@ -463,7 +463,16 @@ def run_history(impl, rng, profile, length, on_step=None):
     for _ in range(length):
         e = pick_event(rng, unit, profile)
         o = apply_event(unit, e)
-        after = unit.snapshot()
+        try:
+            after = unit.snapshot()
+        except HarnessError as ex:
+            # the unit left the state space of the protocol (an attribute of the wrong type, e.g. None where a
+            # number belongs): with an oracle attached this is a concrete failing history, not a harness problem
+            if on_step is None:
+                raise
+            events.append(e)
+            on_step(unit, e, ('H', str(ex)), before, before)
+            break
         events.append(e)
         obs.append((o, after))
         if on_step:
@@ -476,8 +485,7 @@ def run_history(impl, rng, profile, length, on_step=None):
 
 def apply_levent(line, e):
     if e[0] == 'tick':
-        line.tick(e[1])
-        return None
+        return _tick_outcome(line, e[1])
     if e[0] == 'uni':
         return line.uni(e[1], e[2], e[3], e[4])
     return line.bcast(e[1], e[2], e[3])
@@ -512,7 +520,14 @@ def run_line_history(impl, rng, length, on_step=None, bcast_share=0.2):
             else:
                 e = ('uni', j, e[1], e[2], e[3])
         o = apply_levent(line, e)
-        after = line.snapshots()
+        try:
+            after = line.snapshots()
+        except HarnessError as ex:
+            if on_step is None:
+                raise
+            events.append(e)
+            on_step(line, e, ('H', str(ex)), before, before)
+            break
         events.append(e)
         obs.append((o, after))
         if on_step:
@@ -538,10 +553,19 @@ def replay_line(impl, idxs, clock0, events, on_step=None):
     return line
 
 
+def _tick_outcome(obj, k):
+    """a time step: None, or ('E', text) when calc_position raised (in production the exception ends the
+    line's only positioning thread: no unit of the line moves again)"""
+    try:
+        obj.tick(k)
+    except Exception as ex:   # noqa
+        return ('E', 'calc_position raised %s: %s' % (type(ex).__name__, ex))
+    return None
+
+
 def apply_event(unit, e):
     if e[0] == 'tick':
-        unit.tick(e[1])
-        return None
+        return _tick_outcome(unit, e[1])
     return unit.cmd(e[1], e[2], e[3])
 
 
